@@ -8,11 +8,15 @@ A. Reachability over the PRODUCT of the implementation's own transition function
 B. Bounded black box: all strings up to a length over 24 boundary bytes against CPython's decoder.
 C. End to end: representative strings in all fragmentations (<= 3 fragments) through recv()/recv_data(), validation on and
    off, and as close reasons.
+D. Histories: every sequence of <= N messages (well-formed / ill-formed text, whole or fragmented, binary) on ONE connection,
+   explicit-state search with merging on the connection's snapshot: every message is judged on its own payload only - a rejected
+   message leaves nothing behind that is delivered with, or changes the verdict on, a later one.
 """
 import itertools
 
 from .. import lib, env, runner
-from ..explore import Violation, as_violation
+from ..explore import Explorer, Violation, as_violation, replay as replay_choices
+from ..snapshot import snap
 from ..ref import rfc6455 as R
 
 ID = "C06"
@@ -20,7 +24,8 @@ LEVEL = "model_checking"
 RULE = ("states = reachable pairs (implementation decoder state, reference DFA state); transitions = pairs x 256 bytes, each executed on "
         "the real _decode with 3 code-point accumulators; black-box: every witness and every one-byte extension of it, all strings of "
         "length <= L over 24 boundary bytes; end-to-end: 44 strings x all fragmentations into <= 3 fragments x validation on/off; "
-        "distinct_nontrivial = product states + distinct black-box strings + distinct end-to-end cases")
+        "histories: all sequences of <= 3 (thorough 4) of 13 messages on one connection, merged on the connection snapshot; "
+        "distinct_nontrivial = product states + distinct black-box strings + distinct end-to-end cases + history states")
 ASSUMPTIONS = ["wsaccel is not installed: the pure-Python validator (_UTF8D/_decode) is the code under test; if _decode is absent the product "
                "construction is skipped and only the black-box parts run (reported in coverage)",
                "CPython's strict utf-8 decoder and the reference DFA (Unicode table 3-7) are trusted; they are cross-checked against each other"]
@@ -37,7 +42,7 @@ E2E = [b"", b"a", b"ab", "é".encode(), "€".encode(), "😀".encode(), "aé€
 
 
 def bounds(tier):
-    return "product automaton: complete; black-box strings of length <= %d over 24 boundary bytes; 44 end-to-end strings x <=3 fragments" % (4 if tier == "quick" else 5)
+    return "product automaton: complete; black-box strings of length <= %d over 24 boundary bytes; 44 end-to-end strings x <=3 fragments; message histories of depth %d over 13 messages" % (4 if tier == "quick" else 5, 3 if tier == "quick" else 4)
 
 
 def py_valid(b):
@@ -59,7 +64,74 @@ def tasks(tier, seed):
             ts.append({"part": "blackbox", "first": first, "second": None, "L": L, "name": "bb/%d" % first})
     for i in range(0, len(E2E), 4):
         ts.append({"part": "e2e", "lo": i, "hi": min(i + 4, len(E2E)), "name": "e2e/%d" % i})
+    for api in ("recv", "recv_data"):
+        for validate in (1, 0):
+            for first in range(len(HIST_MSGS)):
+                ts.append({"part": "hist", "api": api, "validate": validate, "first": first, "depth": 3 if tier == "quick" else 4,
+                           "name": "hist/%s/v%d/%d" % (api, validate, first)})
     return ts
+
+
+# (opcode, payload, cut positions): messages of part D
+HIST_MSGS = [
+    (R.TEXT, b"hello", ()), (R.TEXT, "\u20ac".encode(), ()), (R.TEXT, "\u20ac".encode(), (1,)), (R.TEXT, b"abc\xe2\x82", ()), (R.TEXT, b"\xe2\x82", (1,)),
+    (R.TEXT, b"\xac", ()), (R.TEXT, b"\x82\xac", (1,)), (R.TEXT, b"\xff", ()), (R.TEXT, b"", ()), (R.BINARY, b"\xe2\x82", ()), (R.BINARY, b"\xf0\x9f", (1,)),
+    (R.TEXT, b"\xf0\x9f\x98", (1, 2)), (R.TEXT, b"\x80", ()),
+]
+
+
+class HistHarness:
+    def __init__(self, d):
+        self.d = d
+
+    def __call__(self, ch):
+        d = self.d
+        lib.reset_globals()
+        env.install_urandom("counter")
+        sock = env.ScriptSock(b"", at_end="timeout")
+        ws = env.make_ws(sock, skip_utf8_validation=not d["validate"])
+        hist = []
+        for step in range(d["depth"]):
+            if step == 0:
+                k = d["first"]
+            else:
+                k = ch.choose(len(HIST_MSGS), "message", key=lambda: (snap(ws), d["depth"] - step))
+            op, payload, cuts = HIST_MSGS[k]
+            cs = [0] + list(cuts) + [len(payload)]
+            parts = [payload[cs[i]:cs[i + 1]] for i in range(len(cs) - 1)]
+            for i, part in enumerate(parts):
+                sock.stream += R.encode(op if i == 0 else R.CONT, part, fin=1 if i == len(parts) - 1 else 0)
+            hist.append("%s:%s%s" % (R.NAMES[op], payload.hex() or "-", "/%s" % ",".join(map(str, cuts)) if cuts else ""))
+            valid = op != R.TEXT or R.valid_utf8(payload)
+            sig = {"kind": "utf8-history", "api": d["api"], "validate": bool(d["validate"]), "step": min(step, 1)}
+            label = "history [%s], validation %s, via %s" % (" ".join(hist), "on" if d["validate"] else "off", d["api"])
+            try:
+                got = ws.recv() if d["api"] == "recv" else ws.recv_data()
+            except (lib.websocket.WebSocketPayloadException, lib.websocket.WebSocketProtocolException) as e:
+                if d["validate"] and not valid:
+                    continue
+                raise Violation(dict(sig, outcome="rejected-valid" if valid else "rejected-with-validation-off"),
+                                "%s: the last message was answered with %s although %s" % (
+                                    label, type(e).__name__, "its own payload is well-formed" if valid else "validation is off"))
+            except lib.websocket.WebSocketTimeoutException:
+                raise Violation(dict(sig, outcome="not-delivered"), "%s: the last message was complete but the call timed out" % label)
+            except UnicodeDecodeError:
+                if not d["validate"] and d["api"] == "recv" and not valid:
+                    return ("undecodable", step)
+                raise
+            if d["validate"] and not valid:
+                raise Violation(dict(sig, outcome="accepted-invalid"), "%s: the last message is ill-formed UTF-8 but %.60r was delivered" % (label, got))
+            if d["api"] == "recv":
+                if op == R.TEXT and not valid:
+                    continue
+                want = payload.decode("utf-8") if op == R.TEXT else payload
+            else:
+                want = (op, payload)
+            if got != want:
+                raise Violation(dict(sig, outcome="changed"), "%s: delivered %.60r, expected %.60r (bytes of an earlier message?)" % (label, got, want))
+            if sock.written:
+                raise Violation(dict(sig, outcome="wrote"), "%s: the client wrote %r" % (label, bytes(sock.written)))
+        return ("ok",)
 
 
 def product(res):
@@ -227,6 +299,16 @@ def run_task(desc):
         res["complete"] += n
         if desc["first"] == 0:
             res["samples"].append({"blackbox_alphabet": [hex(b) for b in BOUNDARY], "max_len": L})
+    elif part == "hist":
+        ex = Explorer(HistHarness(desc), bound=None, merge=True)
+        ex.explore()
+        runner.add_explorer(res, ex)
+        res["distinct"] += ex.states
+        for v, choices in ex.violations:
+            runner.add_failure(res, v.sig, v.what, {"case": "hist", "task": desc, "choices": choices}, v.detail)
+        if desc["first"] == 0:
+            res["samples"].append({"history_search": desc["name"], "messages": len(HIST_MSGS), "depth": desc["depth"], "states": ex.states,
+                                   "transitions": ex.transitions, "executions": ex.execs})
     else:
         n = 0
         for payload in E2E[desc["lo"]:desc["hi"]]:
@@ -274,6 +356,9 @@ def replay(rep):
         except Violation as v:
             return {"sig": v.sig, "what": v.what}
         return None
+    if rep["case"] == "hist":
+        out, v, ch = replay_choices(HistHarness(rep["task"]), rep["choices"])
+        return None if v is None else {"sig": v.sig, "what": v.what}
     if rep["case"] == "bb":
         s = rep["s"]
         impl = lib._utils.validate_utf8(s)
